@@ -98,6 +98,18 @@ func c08Scenarios(tier string) []*Scenario {
 			}
 		}
 	}
+	// requests served while Run() is still preparing the project (env_cmds run before the first spawn)
+	{
+		ph := c08Phase{id: "startup", yaml: projectYAML([]string{"env_cmds:", "  VHE: \"envcmd-e\""}, PC{Name: "d"}, PC{Name: "a"}),
+			procs: map[string]*ProcScript{"d": {}, "a": {}}, target: "a", ticks: 2}
+		preparing := func(w *World) bool {
+			return findEvent(w.trace, 0, func(e Event) bool { return e.Kind == "envcmd" }) >= 0
+		}
+		for _, o := range ops {
+			mk(ph, "seq-"+o, 1, []APICall{{Op: o, Name: "a", When: preparing}})
+			scs[len(scs)-1].EnvCmdOut = map[string]string{"envcmd-e": "e\n"}
+		}
+	}
 	// unknown names
 	ph := c08Phases()[0]
 	for _, o := range ops {
@@ -222,7 +234,8 @@ func c08Check(w *World, ph c08Phase, sequential bool) []Violation {
 			if c.failed {
 				for i := c.req + 1; i < c.ret; i++ {
 					if tr[i].Proc == key || (tr[i].Kind == "state" && tr[i].Proc == x) {
-						if sequential && !ph.policy && tr[i].Kind != "exit" && tr[i].Kind != "reaped" {
+						// (while Run() is still spawning, the automatic first launch is not the request's doing)
+						if sequential && !ph.policy && ph.id != "startup" && tr[i].Kind != "exit" && tr[i].Kind != "reaped" {
 							vs = append(vs, viol("C08", "start-side-effect", "failed start(%s) coincides with %s", x, tr[i].Kind))
 						}
 					}
